@@ -60,6 +60,7 @@ pub fn child(args: &[String]) -> ! {
                     lat: Lat::None,
                     page_cache: false,
                     fs_seed: rng.next_u64(),
+                    capacity: None,
                 };
                 let (mut h, _) = gen_history(&mut rng, &gc);
                 h.push(Op::Crash);
